@@ -224,4 +224,66 @@ theorem emptyItemCheck_total {cur : List Char} {p : Nat} (isTerm : Bool) (h : Ma
     exact ⟨_, rfl⟩
   · exact ⟨_, rfl⟩
 
+/-! ## 2. the rewriting of the item's first line -/
+
+theorem itemRewrite_total {src : List Char} {o : LineOffset} {cur : List Char} {pos : Nat}
+    (hl : LineOk src o) (h0 : 0 ≤ o.indentNonspace)
+    (hb : Lines.slice src o.firstNonspace o.lineEnd = .ok cur) (hM : MarkerSplit cur pos) :
+    ∃ r, itemRewrite src o pos = .ok r := by
+  obtain ⟨pre, suf, rfl, rfl, _, _⟩ := hM
+  obtain ⟨a, run, rest, rfl, hrun, hrest, hwhole, ha, hfn, hend, hfi, hlead⟩ := rewrite_shape hl hb
+  unfold itemRewrite
+  rw [if_neg (by omega)]
+  have hrel : psub (Lines.byteLen pre + o.firstNonspace) o.lineStart
+      = .ok (Lines.byteLen a + Lines.byteLen pre) := by
+    unfold psub; rw [if_pos (by omega)]; congr 1; omega
+  have hlen : psub o.lineEnd o.lineStart = .ok (o.lineEnd - o.lineStart) := by
+    unfold psub; rw [if_pos (by omega)]
+  simp only [hwhole, liftL, ok_bind, hrel, hfi, hlen]
+  exact ⟨_, rfl⟩
+
+/-- the rewritten entry keeps its leading bytes one byte wide -/
+theorem itemRewrite_wsAscii {src : List Char} {o o' : LineOffset} {cur : List Char} {pos indent : Nat}
+    {re : Bool} (hl : LineOk src o) (ha : WsAscii src o)
+    (hb : Lines.slice src o.firstNonspace o.lineEnd = .ok cur) (hM : MarkerSplit cur pos)
+    (h : itemRewrite src o pos = .ok (o', indent, re)) : WsAscii src o' := by
+  obtain ⟨pre, suf, rfl, rfl, _, hasc⟩ := hM
+  obtain ⟨a, run, rest, rfl, hrun, hrest, hwhole, h3, hfn, hend, hfi, hlead⟩ := rewrite_shape hl hb
+  unfold itemRewrite at h
+  crack h
+  rename_i hneg ltxt hltxt rel hrel fi hfi' lineLen hlen ho' hind
+  subst ho'
+  obtain ⟨hle, rfl⟩ := psub_ok hrel
+  have e1 := liftL_ok hltxt
+  rw [hwhole] at e1
+  cases e1
+  have hrel' : Lines.byteLen pre + o.firstNonspace - o.lineStart = Lines.byteLen a + Lines.byteLen pre := by
+    omega
+  rw [hrel'] at hfi'
+  have e2 := liftL_ok hfi'
+  rw [hfi] at e2
+  cases e2
+  exact wsAscii_rewrite ha h3 hasc hrun hlead _
+
+/-! ## 3. a marker sits at a line -/
+
+/-- a marker of `pos` bytes sits at line `m` of `S`, at a non-negative indent -/
+def MarkerAt (S : BState) (m pos : Nat) : Prop :=
+  ∃ o cur, S.offs[m]? = some o ∧ Lines.slice S.src o.firstNonspace o.lineEnd = .ok cur ∧
+    MarkerSplit cur pos ∧ 0 ≤ o.indentNonspace
+
+theorem MarkerAt.pos {S : BState} {m pos : Nat} (h : MarkerAt S m pos) : 1 ≤ pos := by
+  obtain ⟨_, _, _, _, hM, _⟩ := h
+  exact hM.pos
+
+/-- from the line the rule looks at: `get_line` found the marker, `line_indent ≥ 0` -/
+theorem markerAt_of {S : BState} {m pos : Nat} {cur : List Char} {ind : Int} (hm : m < S.offs.length)
+    (hind : S.lineIndent m = .ok ind) (h0 : 0 ≤ ind) (hcur : S.getLine m = .ok cur)
+    (hM : MarkerSplit cur pos) : MarkerAt S m pos := by
+  have ho : S.offs[m]? = some S.offs[m] := List.getElem?_eq_getElem hm
+  refine ⟨S.offs[m], cur, ho, getLine_eq ho hcur, hM, ?_⟩
+  rw [lineIndent_of_off ho] at hind
+  cases hind
+  omega
+
 end MdIt.Block
